@@ -55,11 +55,11 @@ var paths = map[string]authsim.Set{
 	"/v2/a/manifests/x":        authsim.NewSet("repository:a:pull"),
 	"/v2/a/blobs/uploads/":     authsim.NewSet("repository:a:pull", "repository:a:push"),
 	"/v2/a/push-only":          authsim.NewSet("repository:a:push"),
-	"/v2/b/manifests/x":        authsim.NewSet("repository:b:pull"),
+	"/v2/catalog/manifests/x":        authsim.NewSet("repository:catalog:pull"),
 	"/v2/_catalog":             authsim.NewSet("registry:catalog:*"),
-	"/v2/a/blobs/mount-from-b": authsim.NewSet("repository:a:pull", "repository:a:push", "repository:b:pull"),
+	"/v2/a/blobs/mount-from-b": authsim.NewSet("repository:a:pull", "repository:a:push", "repository:catalog:pull"),
 }
-var pathList = []string{"/v2/", "/v2/a/manifests/x", "/v2/a/manifests/x", "/v2/a/blobs/uploads/", "/v2/a/push-only", "/v2/b/manifests/x", "/v2/b/manifests/x", "/v2/_catalog", "/v2/a/blobs/mount-from-b"}
+var pathList = []string{"/v2/", "/v2/a/manifests/x", "/v2/a/manifests/x", "/v2/a/blobs/uploads/", "/v2/a/push-only", "/v2/catalog/manifests/x", "/v2/catalog/manifests/x", "/v2/_catalog", "/v2/a/blobs/mount-from-b"}
 
 func weighted(rng *rand.Rand, w []int) int {
 	tot := 0
